@@ -6,6 +6,17 @@ coq/gen/K13.v defines
                                   (annotated or plain assignment)
   merge_loop_keys : list string   the tuple iterated by the option loop of Dialect.merge
 
+  direct_option_reads : list string
+      every place in mashumaro/**/*.py (outside class Dialect / BaseConfig themselves) that reads one of
+      the option attributes (all of dialect_attrs except serialization_strategy) DIRECTLY --
+      `<expr>.<option>` or `getattr(<expr>, "<option>"...)` -- instead of going through
+      CodeBuilder.get_dialect_or_config_option (whose loop uses a variable name) or Dialect.merge.
+      `spec.no_copy_collections` (a ValueSpec field, filled from the resolution function) is not an
+      option namespace and is skipped.  The theorem C13_options_only_via_resolution says this list is
+      empty: no code path can honour Config.<option> while ignoring Config.dialect / default_dialect.
+  resolved_option_reads : list (string * string)   (option, default literal) of every
+      get_dialect_or_config_option("<option>", <default>, ...) call site
+
 Fail closed: any statement in the class body that is not an attribute binding, a docstring
 or the `merge` classmethod, or a merge loop that is not `for key in (<string literals>)`,
 raises Unsupported (the dependent proofs then do not build)."""
@@ -70,14 +81,57 @@ def extract(src_text: str):
     return attrs, keys
 
 
+def scan_reads(attrs):
+    opts = [a for a in attrs if a != "serialization_strategy"]
+    direct, resolved = [], []
+    root = os.path.join(REPO, "mashumaro")
+    for dp, _dn, fns in sorted(os.walk(root)):
+        for fn in sorted(fns):
+            if not fn.endswith(".py"):
+                continue
+            path = os.path.join(dp, fn)
+            rel = os.path.relpath(path, REPO)
+            tree = ast.parse(open(path).read())
+            skip = set()
+            for n in ast.walk(tree):
+                # the defining classes (annotated defaults) and merge's own getattr/setattr loop
+                if isinstance(n, ast.ClassDef) and n.name in ("Dialect", "BaseConfig") and rel in ("mashumaro/dialect.py", "mashumaro/config.py"):
+                    skip.update(id(x) for x in ast.walk(n))
+            for n in ast.walk(tree):
+                if id(n) in skip:
+                    continue
+                if isinstance(n, ast.Attribute) and n.attr in opts and isinstance(n.ctx, ast.Load):
+                    recv = ast.unparse(n.value)
+                    if recv == "spec" and n.attr == "no_copy_collections":
+                        continue
+                    direct.append(f"{rel}:{n.lineno}: {ast.unparse(n)}")
+                if isinstance(n, ast.Call):
+                    f = ast.unparse(n.func)
+                    if f == "getattr" and len(n.args) >= 2 and isinstance(n.args[1], ast.Constant) and n.args[1].value in opts:
+                        direct.append(f"{rel}:{n.lineno}: {ast.unparse(n)}")
+                    if f.endswith("dialect_or_config_option"):
+                        if n.args and isinstance(n.args[0], ast.Name):
+                            continue        # a forwarding wrapper (its own callers are scanned by the same suffix rule)
+                        if not n.args or not isinstance(n.args[0], ast.Constant) or not isinstance(n.args[0].value, str):
+                            raise Unsupported(f"{rel}:{n.lineno}: get_dialect_or_config_option with a non-literal option name")
+                        if len(n.args) < 2:
+                            raise Unsupported(f"{rel}:{n.lineno}: get_dialect_or_config_option without default")
+                        resolved.append((n.args[0].value, ast.unparse(n.args[1])))
+    return direct, resolved
+
+
 def gen() -> str:
     src = os.path.join(REPO, "mashumaro/dialect.py")
     attrs, keys = extract(open(src).read())
+    direct, resolved = scan_reads(attrs)
     out = ("(* GENERATED by tools/kernels/k13_dialect_attrs.py from mashumaro/dialect.py -- do not edit.\n"
            "   Regenerated from /repo on every check run. *)\n"
            "From Coq Require Import List String.\nImport ListNotations.\nOpen Scope string_scope.\n\n")
     out += "Definition dialect_attrs : list string :=\n  [" + "; ".join(coq_string(a) for a in attrs) + "].\n\n"
-    out += "Definition merge_loop_keys : list string :=\n  [" + "; ".join(coq_string(k) for k in keys) + "].\n"
+    out += "Definition merge_loop_keys : list string :=\n  [" + "; ".join(coq_string(k) for k in keys) + "].\n\n"
+    out += "Definition direct_option_reads : list string :=\n  [" + "; ".join(coq_string(d) for d in direct) + "].\n\n"
+    out += ("Definition resolved_option_reads : list (string * string) :=\n  ["
+            + "; ".join(f"({coq_string(o)}, {coq_string(d)})" for o, d in resolved) + "].\n")
     return out
 
 
